@@ -144,7 +144,7 @@ SeqTrees(rules, D, rhs, k, i, j) ==
   IF k > Len(rhs) THEN (IF i = j THEN {<<>>} ELSE {})
   ELSE UNION { {<<t>> \o rest : t \in TreesOf(rules, D, rhs[k], i, m),
                                  rest \in SeqTrees(rules, D, rhs, k + 1, m, j)}
-               : m \in {q \in i..j : <<rhs[k], i, q>> \in D} }
+               : m \in {q \in i..j : <<rhs[k], i, q>> \in D /\ j \in EndsFrom(rhs, k + 1, {q}, D)} }     \* (the rest must fit: left recursion)
 
 Derivs(rules, start, w) == TreesOf(rules, Der(rules, w), start, 0, Len(w))
 
